@@ -231,7 +231,19 @@ def _frozen_now(who, ref):
 
 def execute(case):
     """Run one history through the real object.  Returns (events, mismatches, counters) where mismatches lists
-    S->C disagreements with the TLC-computed states."""
+    S->C disagreements with the TLC-computed states.  When the library raises on a valid history what was
+    recorded up to that call is kept (and judged) and the exception is one more mismatch ('raised')."""
+    events, mism, cnt = [], [], {}
+    try:
+        _execute(case, events, mism, cnt)
+    except core.MachineryError:
+        raise
+    except Exception as ex:
+        mism.append({'step': -1, 'raised': '%s: %s' % (type(ex).__name__, ex), 'after_events': len(events)})
+    return events, mism, cnt
+
+
+def _execute(case, events, mism, cnt):
     import json as _json
     from pmutt.mixture.cov import PiecewiseCovEffect
     from pmutt.io.json import pmuttEncoder, json_to_pmutt
@@ -241,7 +253,6 @@ def execute(case):
     ctor = case.get('ctor', {})
     num = ctor.get('num', 'float')
     ctr = int(case.get('rot', 0))
-    events, mism, cnt = [], [], {}
     obj = None
     frozen = []                      # [who, ref, state, fx, U]
     grid_binding = True
@@ -412,16 +423,6 @@ def execute(case):
             ctr += 7
     if 1 <= n_edits <= 6:
         hit('edits_%d' % n_edits)
-    return events, mism, cnt
-
-
-def _safe_execute(case):
-    try:
-        return execute(case)
-    except core.MachineryError:
-        raise
-    except Exception as ex:          # the library raised on a valid history
-        return [], [{'step': -1, 'raised': '%s: %s' % (type(ex).__name__, ex)}], {}
 
 
 def _ctor_for(rnd, ops):
@@ -617,7 +618,7 @@ def run(ctx):
             cases.append(_random_case(rnd, 'r%d' % k, k + ctx.seed))
     import time
     t_tlc = time.time()
-    results = core.pmap(_safe_execute, cases)
+    results = core.pmap(execute, cases)
     t_exec = time.time()
     traces = []
     totals = {}
@@ -638,8 +639,12 @@ def run(ctx):
     ctx.coverage['input_classes'] = {k: totals.get(k, 0) for k in VACUITY}
     if ctx.replay_case is None:
         empty = [k for k in VACUITY if not totals.get(k)]
-        if empty:
+        raised = sum(1 for (_, m, _) in results if any('raised' in x for x in m))
+        if empty and not raised:
             raise core.MachineryError('input classes never exercised in this run: %s' % ', '.join(empty))
+        if empty:
+            # histories cut short by a library exception (each one a Raises violation) do not reach their classes
+            ctx.notes.append('%d histories raised; input classes not reached: %s' % (raised, ', '.join(empty)))
     fails, stats = core.validate_traces('Trace_CovEffect', 'Trace', traces)
     ctx.count('traces_validated_against_impl', len(traces))
     ctx.coverage['phase_wall_s'] = {'tlc_models_and_behaviours': round(t_tlc - ctx.t0, 1),
